@@ -1831,6 +1831,7 @@ class mulgrid(object):
             if not silent: print('Missing connections:', list(mc))
             if fix:
                 for c in mc: self.add_connection(c)
+                self.identify_neighbours()
                 if not silent: print('Missing connections fixed.')
         ec = self.extra_connections
         if len(ec) > 0:
